@@ -9,9 +9,13 @@ leg A  model vs backend, representation level: factories' level lists / ctypes f
        `to_scipy` bookkeeping; the constituent arrays the backend returns for asarray / add / reshape /
        asformat decoded by the Lean `toDense`; the `_hold_ref` / `free_memref` / finalisation log of
        ownership programs against the ownership model's trace.
+       Which `_hold_ref` edges the model has is read off the source on every run (tools/tables.d/C20.py -> Generated/MlirHold.lean).
 leg C  the property: round trips return the original values; add / reshape / asformat equal NumPy for
        every pair of storage formats and dtypes outside the backend tests' xfail set; results are
-       re-read after every order of `del` + `gc.collect()` (with freed blocks scribbled over); inputs'
+       re-read after every order of `del` + `gc.collect()` (with freed blocks scribbled over); the lifetime sweep
+       (`lifetime_programs`): arrays built from NumPy / SciPy input, from_constituent_arrays, copy(), asarray(copy=…) in every
+       format, every reference to the sources and the backend arrays deleted in every order, "released while a view is alive"
+       decided by weak references to the owner of the allocation each surviving array points into; inputs'
        bytes unchanged; result pointers disjoint from inputs; a worker killed by the backend is a
        failing input (exit status reported).
 PARTIAL: the arithmetic is MLIR-compiled code no model executes; use-after-free is undefined behaviour
@@ -42,6 +46,11 @@ TRUSTED = [
     "tie T2: hand models SparseV.Model.Levels (level walk / toDense, to_numpy, scipy field mapping, _determine_format, factories, "
     "ctypes field names) and SparseV.Model.Ownership (_hold_ref edges, owns_memory storages, finalisation) compared with the running "
     "backend by this run (formats, constituent arrays, hold/free/finalisation logs)",
+    "tie T1 (keep-alive edges): tools/tables.d/C20.py reads with Python's `ast` which `_hold_ref` / `free_memref` loop of the nested "
+    "Storage class runs under which `owns_memory` condition and pins the texts of `_hold_ref`, the conversion functions and `Array.copy`; "
+    "its reading of those statements as the four flags of SparseV.Own.Cfg is trusted (and compared with the `_hold_ref` log each run)",
+    "weak references decide 'released while a view is alive': CPython clears a weak reference exactly when the object is deallocated, "
+    "a NumPy array that owns its data frees it in its deallocator, an owning Storage frees its fields in `__del__`",
     "the MLIR sparse_tensor dialect's storage semantics (pos/crd/values per level) is what `toDense` formalises; it is validated "
     "against the backend's output, not derived from MLIR's source",
     "MLIR-compiled kernels (add, reshape, convert) are executed, not modelled: NumPy is the reference for their values",
@@ -1223,7 +1232,9 @@ def run(ctx):
         "dense level orders: every permutation of rank<=3; operations: every pair of storage families per rank for add and asformat, "
         "family x target shape for reshape, dtypes rotated by VERIF_SEED in quick and exhaustive in thorough, minus the backend tests' "
         "xfail conditions; _determine_format: random groups of 0-3 formats + exhaustive pairs of a sub-pool; ownership: every "
-        "permutation of deleting 4 objects of each program; non-trivial = at least one stored element / one object; distinct by content hash")
+        "permutation of deleting 4 objects of each program; lifetimes: build (NumPy copy=None/False/True, SciPy csr/csc/coo copy=None/True, "
+        "from_constituent_arrays per format, copy(), asarray of an array) x output kind (views / to_numpy / to_scipy) x every order of deleting "
+        "all references to the sources and the arrays (index arrays grouped to <= 4 units in quick), dtypes rotated by VERIF_SEED; non-trivial = at least one stored element / one object; distinct by content hash")
 
 
 def check_formats(ctx, specs, res):
